@@ -106,6 +106,8 @@ def plan_properties(ws, parg, older, now, test, observed, tags):
         good = sorted(k for k in observed if k in used and k not in bad)
         if len(good) > quota:
             msgs.append('%d non-bad stripes scrubbed, more than the share %d of %d' % (len(good), quota, n))
+        if len([k for k in observed if k in used]) > quota + len(bad):
+            msgs.append('%d stripes scrubbed, more than the share %d plus the %d bad stripes' % (len(observed), quota, len(bad)))
         young = [k for k in good if T(ws[k]) > recent]
         if young:
             msgs.append('stripes %s are younger than the age limit %d' % (young, recent))
